@@ -77,7 +77,7 @@ def bpms(r):
 
 def plan(tier, seed):
     K = 4 if tier == "quick" else 5
-    shards = [(r, i, K) for r in RES for i in range(5)] + [("subus", r) for r in (192, 960, 480)] + [("long", r) for r in RES] + [("far", r) for r in (1, 192)] + [("unsorted", r) for r in RES]
+    shards = [(r, i, K) for r in RES for i in range(5)] + [("subus", r) for r in (192, 960, 480)] + [("long", r) for r in RES] + [("far", r) for r in (1, 192)] + [("unsorted", r) for r in RES] + [("hold", r) for r in (1, 192)]
     return dict(shards=shards, bounds=dict(resolutions=list(RES), segments=K, gaps=list(GAPS), bpm_thousandths={str(r): list(bpms(r)) for r in RES}), budget_s=900 if tier == "thorough" else 300)
 
 
@@ -101,6 +101,24 @@ def run_shard(shard, ctx):
         return _subus(ctx, shard[1])
     if shard[0] == "far":
         return _far(ctx, shard[1])
+    if shard[0] == "hold":
+        # a tempo HELD for more ticks than its own value in thousandths (an error of one thousandth of a BPM in the
+        # in-segment path grows to a whole tick just before the next change), for values whose float image is inexact
+        r = shard[1]
+        for v in (1001, 1003, 1021, 1118, 2002, 4004):
+            for w in (120000, v + 1):
+                tempo = [(0, 120000), (7, v), (7 + v + 3, w)]
+                text = build(r, tempo)
+                strict = all(n * r <= 3 * 10**10 for _, n in tempo)
+                got = e1.run_probe(probes[strict], text)
+                ctx.case((r, tuple(tempo)), sample=lambda: dict(resolution=r, tempo=[list(x) for x in tempo]))
+                ctx.evaluations += 3 * (tempo[-1][0] + 5)
+                ctx.hist["held_tempo_maps"] += 1
+                if isinstance(got, list) and got[:1] == ["raises"]:
+                    ctx.hist["undecided(parse or query raises; owned by C01/C08/C15)"] += 1
+                elif got != "monotone":
+                    e1.report(ctx, "monotone", text, src(strict), ["monotone"], got, "resolution %d tempo map %r (a tempo held for more ticks than its value in thousandths)" % (r, [list(x) for x in tempo]), extra_case=dict(strict=strict))
+        return
     if shard[0] == "unsorted":
         _unsorted(ctx, shard[1])
         return _unsorted_across(ctx, shard[1])
